@@ -9,7 +9,7 @@ d = json.load(open(P)) if os.path.exists(P) else {'format': 'findings[]: status 
 _, cmd, fid, props, status, mech, commit, what, *rest = sys.argv
 props = props.split(',')
 wit = json.load(open(rest[0])) if rest else None
-if wit and 'case' in wit and 'fails' in wit:
+if wit and 'case' in wit and ('fails' in wit or 'property' in wit):
     wit = wit['case']
 e = {'id': fid, 'properties': props, 'status': status, 'mechanism': mech, 'commit': None if commit == '-' else commit, 'what': what,
      'record': ('fixed: property=%s %s %s' % (props[0], commit, what)) if status == 'fixed' else ('open: property=%s %s' % (props[0], what)),
